@@ -874,6 +874,18 @@ type rmwLoop struct {
 	Writes []ssa.CallInstruction
 	// Via: for a write that sits in a helper the loop calls, the loop's call of that helper
 	Via map[ssa.CallInstruction]ssa.CallInstruction
+	// Outer: when the loop's body was extracted into Fn (`for { x, retry, err = c.once(...) }`), the
+	// function that contains the loop; Fn then returns a bool that says whether to go round again
+	Outer *ssa.Function
+	Retry int // index of that bool result (body functions only)
+}
+
+// loopName: the name obligations of this loop are keyed by (the function with the `for`).
+func (lp *rmwLoop) nameFn() *ssa.Function {
+	if lp.Outer != nil {
+		return lp.Outer
+	}
+	return lp.Fn
 }
 
 // actualOf maps a parameter of a write helper to the value the loop passes for it.
@@ -955,8 +967,20 @@ func (m *Model) rmwLoops() []*rmwLoop {
 			continue
 		}
 		lp := &rmwLoop{Fn: fn, Via: map[ssa.CallInstruction]ssa.CallInstruction{}}
+		// a loop body extracted into its own function: fn returns a bool ("go round again") and its
+		// only caller calls it inside a cycle and tests that result
+		isBody := false
+		if callers := m.staticCallersOf(fn); len(callers) == 1 && inCycle(callers[0].Block()) && callers[0].Parent().Pkg == m.SSA {
+			res := fn.Signature.Results()
+			for i := 0; i < res.Len(); i++ {
+				if types.Identical(res.At(i).Type(), types.Typ[types.Bool]) {
+					isBody = true
+					lp.Outer, lp.Retry = callers[0].Parent(), i
+				}
+			}
+		}
 		m.eachCall(fn, func(c ssa.CallInstruction) {
-			if !inCycle(c.Block()) {
+			if !inCycle(c.Block()) && !isBody {
 				return
 			}
 			callee := c.Common().StaticCallee()
@@ -993,6 +1017,9 @@ func (m *Model) rmwLoops() []*rmwLoop {
 		if len(lp.Reads) > 0 && len(lp.Writes) > 0 {
 			out = append(out, lp)
 		}
+		if !(len(lp.Reads) > 0 && len(lp.Writes) > 0) || !isBody {
+			lp.Outer = nil
+		}
 	}
 	return out
 }
@@ -1008,7 +1035,7 @@ func (m *Model) ruleRMW(r *Results) {
 	loops := m.rmwLoops()
 	for _, lp := range loops {
 		fn := lp.Fn
-		name := m.declName(fn)
+		name := m.declName(lp.nameFn())
 		// (a) write-back CAS derives from the read of the same iteration (or a caller-supplied previous doc)
 		for _, w := range lp.Writes {
 			callee := w.Common().StaticCallee()
@@ -1059,7 +1086,7 @@ func (m *Model) ruleRMW(r *Results) {
 				if al, ok := v.(*ssa.Alloc); ok {
 					if _, isPtrToMapOrSlice := al.Type().Underlying().(*types.Pointer); isPtrToMapOrSlice {
 						key := name + " / read destination " + al.Comment
-						r.check(inCycle(al.Block()), rule, key, m.instrPos(rd), "the read's destination is a fresh variable in each iteration", "the variable the document is read into is declared outside the retry loop: on a retry the new version is decoded on top of the previous iteration's copy (properties a concurrent writer removed come back)")
+						r.check(inCycle(al.Block()) || lp.Outer != nil, rule, key, m.instrPos(rd), "the read's destination is a fresh variable in each iteration", "the variable the document is read into is declared outside the retry loop: on a retry the new version is decoded on top of the previous iteration's copy (properties a concurrent writer removed come back)")
 					}
 				}
 			}
@@ -1075,6 +1102,9 @@ func (m *Model) ruleRMW(r *Results) {
 				continue
 			}
 			okOnly := m.loopsOnlyOnCasError(fn, w, errV)
+			if lp.Outer != nil {
+				okOnly = m.bodyRetriesOnlyOnCasError(lp, w, errV)
+			}
 			r.check(okOnly, rule, name+" / retry condition after "+w0.Common().StaticCallee().Name(), m.instrPos(w), "the loop retries only when the write reported a CAS mismatch (or key-exists)", "after the conditional write the loop can repeat on an error that is not a CAS mismatch, or give up on one")
 		}
 	}
@@ -1946,4 +1976,68 @@ func sameVariable(a, b ssa.Value) bool {
 		}
 	}
 	return false
+}
+
+// bodyRetriesOnlyOnCasError: for a loop body function, "go round again" (the bool result being
+// true) is reachable after the write only through the true edge of a CAS-mismatch test of the
+// write's error.
+func (m *Model) bodyRetriesOnlyOnCasError(lp *rmwLoop, w ssa.CallInstruction, errV ssa.Value) bool {
+	fn := lp.Fn
+	c := newCut()
+	found := false
+	for _, iff := range allIfs(fn) {
+		cond := iff.Cond
+		neg := false
+		for {
+			if u, ok := cond.(*ssa.UnOp); ok && u.Op == token.NOT {
+				neg = !neg
+				cond = u.X
+				continue
+			}
+			break
+		}
+		isCasTest := false
+		if ex, ok := cond.(*ssa.Extract); ok {
+			if ta, ok := ex.Tuple.(*ssa.TypeAssert); ok && flowsThroughPhi(errV, ta.X) && isNamed(ta.AssertedType, sgbucketPath, "CasMismatchErr") {
+				isCasTest = true
+			}
+		}
+		if call, ok := cond.(*ssa.Call); ok {
+			if f := call.Common().StaticCallee(); f != nil && f.Pkg != nil && f.Pkg.Pkg.Path() == "errors" && (f.Name() == "Is" || f.Name() == "As") && flowsThroughPhi(errV, call.Common().Args[0]) {
+				isCasTest = true
+			}
+			if f := call.Common().StaticCallee(); f != nil && m.isCasErrorPredicate(f) && flowsThroughPhi(errV, call.Common().Args[0]) {
+				isCasTest = true
+			}
+		}
+		if !isCasTest {
+			continue
+		}
+		found = true
+		t := iff.Block().Succs[0]
+		if neg {
+			t = iff.Block().Succs[1]
+		}
+		c.cutEdge(iff.Block(), t)
+	}
+	if !found {
+		return false
+	}
+	// with the legitimate retry edges cut, no "retry = true" return may be reachable from the write
+	reach := reachableFromSuccs(w.Block(), c)
+	reach[w.Block().Index] = true
+	for _, ret := range returnsOf(fn) {
+		if !reach[ret.Block().Index] || lp.Retry >= len(ret.Results) {
+			continue
+		}
+		v := stripConv(ret.Results[lp.Retry])
+		if k, ok := v.(*ssa.Const); ok && k.Value != nil && !constant.BoolVal(k.Value) {
+			continue
+		}
+		if ret.Block() == w.Block() && indexIn(w.Block(), w) > indexIn(ret.Block(), ret) {
+			continue
+		}
+		return false
+	}
+	return true
 }
